@@ -287,6 +287,63 @@ pub async fn create_block(
     futures_catch(AssertUnwindSafe(fut)).await
 }
 
+/// After the transactions of a block were edited by an attacker: make the header consistent
+/// with them the way Block::create would (the real generate_consensus_values says what to put)
+pub async fn refill_header(node: &Node, b: &mut Block) {
+    b.merkle_root = [0; 32];
+    let _ = b.generate();
+    let cv = b.generate_consensus_values(&node.blockchain, &node.storage, &node.cfg).await;
+    let (pt, pg) = match node.blockchain.get_block(&b.previous_block_hash) {
+        Some(p) => (p.treasury, p.graveyard),
+        None => (0, 0),
+    };
+    b.total_fees_new = cv.total_fees_new;
+    b.total_fees_atr = cv.total_fees_atr;
+    b.total_fees_cumulative = cv.total_fees_cumulative;
+    b.total_fees = cv.total_fees_new.wrapping_add(cv.total_fees_atr);
+    b.avg_total_fees = cv.avg_total_fees;
+    b.avg_total_fees_new = cv.avg_total_fees_new;
+    b.avg_total_fees_atr = cv.avg_total_fees_atr;
+    b.total_payout_routing = cv.total_payout_routing;
+    b.total_payout_mining = cv.total_payout_mining;
+    b.total_payout_treasury = cv.total_payout_treasury;
+    b.total_payout_graveyard = cv.total_payout_graveyard;
+    b.total_payout_atr = cv.total_payout_atr;
+    b.avg_payout_routing = cv.avg_payout_routing;
+    b.avg_payout_mining = cv.avg_payout_mining;
+    b.avg_payout_treasury = cv.avg_payout_treasury;
+    b.avg_payout_graveyard = cv.avg_payout_graveyard;
+    b.avg_payout_atr = cv.avg_payout_atr;
+    b.avg_fee_per_byte = cv.avg_fee_per_byte;
+    b.fee_per_byte = cv.fee_per_byte;
+    b.avg_nolan_rebroadcast_per_block = cv.avg_nolan_rebroadcast_per_block;
+    b.burnfee = cv.burnfee;
+    b.difficulty = cv.difficulty;
+    b.treasury = pt.wrapping_add(cv.total_payout_treasury).wrapping_sub(cv.total_payout_atr);
+    b.graveyard = pg.wrapping_add(cv.total_payout_graveyard);
+}
+
+/// a "new NFT" transaction: [Bound id, Normal payload, Bound tracker(0)] + change
+pub fn nft_create(sim: &Sim, input: &Slip, payload: u64, change: u64, ts: u64) -> Transaction {
+    let owner = sim.key_index(&input.public_key).unwrap();
+    let mut uuid = [0u8; 33];
+    uuid[0..8].copy_from_slice(&input.block_id.to_be_bytes());
+    uuid[8..16].copy_from_slice(&input.tx_ordinal.to_be_bytes());
+    uuid[16] = input.slip_index;
+    raw_tx(
+        TransactionType::Bound,
+        vec![input.clone()],
+        vec![
+            slip_out(input.public_key, 1, SlipType::Bound),
+            slip_out(input.public_key, payload, SlipType::Normal),
+            slip_out(uuid, 0, SlipType::Bound),
+            slip_out(input.public_key, change, SlipType::Normal),
+        ],
+        &sim.keys[owner].1,
+        ts,
+    )
+}
+
 /// re-seal a block after its transactions were edited (merkle root, hashes, signature)
 pub fn reseal(b: &mut Block, sk: &SaitoPrivateKey) {
     b.merkle_root = [0; 32];
@@ -606,6 +663,19 @@ pub fn atr_oracle(
                         let t = atrs[hits[0]];
                         used[hits[0]] = true;
                         rep.rebroadcast += 1;
+                        if triple {
+                            let ok = t.from.len() == 3
+                                && t.to.len() == 3
+                                && t.to[0].slip_type == SlipType::Bound
+                                && t.to[2].slip_type == SlipType::Bound
+                                && t.to[0].public_key == group[0].public_key
+                                && t.to[0].amount == group[0].amount
+                                && t.to[2].public_key == group[2].public_key
+                                && t.to[2].amount == group[2].amount;
+                            if !ok {
+                                rep.failures.push(format!("the NFT group of {} does not travel together (rebroadcast has {} inputs, {} outputs)", desc, t.from.len(), t.to.len()));
+                            }
+                        }
                         let out: Vec<&Slip> = t.to.iter().filter(|o| o.slip_type == SlipType::ATR).collect();
                         if out.len() != 1 || out[0].public_key != payload.public_key {
                             rep.failures.push(format!("{} does not reappear for the same owner", desc));
